@@ -303,7 +303,7 @@ where
         let _g = Flag::off();
         if let Some(x) = r {
             let (v, p) = obs_item(run, x);
-            visit(run, -1, None, v, p);
+            run.emit(json!({"e":"Visit","t":cur_tid(),"idx":-1,"val":v,"pidx":p,"unwind":true}));
         }
     })))
 }
